@@ -88,12 +88,7 @@ func init() {
 				}
 			}()
 			if idx >= 0 {
-				ctx.Stats.Count("generator_invalid", 1)
-				ctx.Label("generator_invalid")
-				if strictGen() {
-					return fmt.Errorf("generator produced a stream the validator rejects at event %d (%v): %v\n%s", idx, in[idx], perr, ev.ListString(in))
-				}
-				return nil
+				return genInvalid(ctx, idx, perr, in)
 			}
 			ctx.NonTrivial(features(ctx, c.Events))
 			want := make([]ev.Event, len(snapshot))
